@@ -11,6 +11,10 @@ TESTS = ["/venv/bin/python", "-m", "pytest", "-q", "-p", "no:cacheprovider", "un
          "--deselect", "unit_tests/test_panoptic_evaluator.py::Test_Example_Scripts"]
 
 
+import threading
+GITLOCK = threading.Lock()
+
+
 def sh(cmd, **kw):
     return subprocess.run(cmd, capture_output=True, text=True, env=ENV, **kw)
 
@@ -69,8 +73,9 @@ def prun_one(d):
     meta = json.load(open(os.path.join(d, "meta.json")))
     prop = meta["property"]
     wt = f"/tmp/seed_wt_{name}"
-    sh(["git", "-C", "/repo", "worktree", "remove", "--force", wt])
-    r = sh(["git", "-C", "/repo", "worktree", "add", "--detach", wt, "HEAD"])
+    with GITLOCK:
+        sh(["git", "-C", "/repo", "worktree", "remove", "--force", wt])
+        r = sh(["git", "-C", "/repo", "worktree", "add", "--detach", wt, "HEAD"])
     res = {}
     env = dict(ENV, PYVC_REPO=wt, PYTHONPATH=wt, PYVC_EVIDENCE_DIR=f"/tmp/pyvc_mutant_evidence_{name}")
     run = lambda cmd, **kw: subprocess.run(cmd, capture_output=True, text=True, env=env, **kw)
@@ -92,7 +97,8 @@ def prun_one(d):
                 lines = [l for l in c.stdout.splitlines() if l.startswith(("VIOLATION", "UNDECIDED", "KNOWN", "["))]
                 res["checks"][p] = {"exit": c.returncode, "lines": [l[:260] for l in lines[:6]]}
     finally:
-        sh(["git", "-C", "/repo", "worktree", "remove", "--force", wt])
+        with GITLOCK:
+            sh(["git", "-C", "/repo", "worktree", "remove", "--force", wt])
         shutil.rmtree(f"/tmp/pyvc_mutant_evidence_{name}", ignore_errors=True)
     meta["ran"] = res
     json.dump(meta, open(os.path.join(d, "meta.json"), "w"), indent=1)
